@@ -283,6 +283,37 @@ def make_scenarios(ctx, od):
                 ins, _ = candidate_values(od, params["p1"], rng)
                 sc["pf"], sc["base"] = {"p1": ins[0]}, "tpe_mv"
             scs.append(sc)
+    # systematic block: narrow continuous domains after an EXTREME, off-centre history (ratio 1e4..1e8, all earlier values
+    # far to one side of the new range): the kernels of TPE's estimator then lie tens of thousands of widths outside the
+    # interval, where only an exact final clamp keeps the sample inside [low, high].  Several seeds per shape.
+    def fl(low, high, K, log=False):
+        a = {"low": low, "high": high}
+        if log:
+            a["log"] = True
+        return {"kind": "float", "args": a, "K": K}
+    extreme = [(fl(0.0, 1e6, 0), fl(0.1, 0.7, 2)),
+               (fl(-1e6, 0.0, 0), fl(0.1, 0.7, 2)),
+               (fl(1e3, 1e6, 0), fl(1e-3, 2e-3, 4)),
+               (fl(0.0, 1e6, 0), fl(40.0, 41.0, 1)),
+               (fl(0.0, 1e8, 0), fl(0.1, 0.7, 2)),
+               (fl(-1e6, -1e3, 0), fl(-0.3, 0.2, 2)),
+               (fl(1e-6, 1e6, 6, True), fl(1.0, 1.001, 4, True)),
+               (fl(1e-3, 1e6, 3, True), fl(1e-3, 1.001e-3, 7, True)),
+               (fl(1e2, 1e6, 0, True), fl(1e-3, 2e-3, 4, True))]
+    n_seeds = 3 if ctx.quick else 12
+    for sampler in ("tpe", "tpe_mv", "partial"):
+        for j, (h0, p0) in enumerate(extreme):
+            h1, p1 = extreme[(j + 4) % len(extreme)]
+            for _ in range(n_seeds):
+                sc = {"sampler": sampler, "seed": rng.randrange(2 ** 31), "storage": "mem",
+                      "params": {"p0": copy.deepcopy(p0), "p1": copy.deepcopy(p1)},
+                      "hist_params": {"p0": copy.deepcopy(h0), "p1": copy.deepcopy(h1)},
+                      "hist": "extreme", "n_hist": 14, "sid": len(scs),
+                      "trials": [{"enqueue": None, "redeclare": None, "incompat": None} for _ in range(5)]}
+                if sampler == "partial":      # p1 fixed by the sampler, p0 sampled independently by the TPE base
+                    ins, _ = candidate_values(od, p1, rng)
+                    sc["pf"], sc["base"] = {"p1": ins[0]}, rng.choice(["tpe", "tpe_mv"])
+                scs.append(sc)
     # systematic block: relative sampling of every sampler that has a relative mode (identical ranges in all earlier
     # trials, enough of them to leave the start-up phase / the first generation)
     plain = [{"kind": "float", "args": {"low": -0.2, "high": 0.3}, "K": 2},
@@ -349,6 +380,7 @@ def _sampler(optuna, sc, od):
         return S.NSGAIIISampler(seed=seed, population_size=3)
     if s == "partial":
         base = (S.TPESampler(seed=seed, n_startup_trials=2, multivariate=True) if sc.get("base") == "tpe_mv"
+                else S.TPESampler(seed=seed, n_startup_trials=2) if sc.get("base") == "tpe"
                 else S.RandomSampler(seed=seed))
         return S.PartialFixedSampler(dict(sc["pf"]), base)
     if s == "brute":
@@ -387,7 +419,10 @@ def run_scenario(sc: dict) -> list:
     # ---- prior history (not judged): the same names, possibly under different ranges
     def hist_objective(trial):
         for nm, p in params.items():
-            q = p if sc["hist"] == "same" or (sc["hist"] != "far" and rng.random() < 0.3) else widen(p, sc["hist"], rng)
+            if nm in sc.get("hist_params", {}):
+                q = sc["hist_params"][nm]
+            else:
+                q = p if sc["hist"] == "same" or (sc["hist"] != "far" and rng.random() < 0.3) else widen(p, sc["hist"], rng)
             call(trial, nm, q)
         return rng.random()
     out = []
@@ -605,7 +640,7 @@ def branch_counts(v, metas):
 def run(ctx):
     ctx.rule = ("scenarios = declared parameters (decimal lattice of Float/Int domains incl. non-dividing steps and single "
                 "points + named extreme shapes + mixed-type categoricals) x 10 built-in sampler configurations x prior "
-                "history (none / same ranges / wider / misaligned / 100x wider ranges, enough trials to leave start-up) x enqueued "
+                "history (none / same ranges / wider / misaligned / 100x wider / 1e4..1e8x wider off-centre ranges, past start-up) x enqueued "
                 "values (in and out of range) x storage (in-memory; samples on SQLite and journal file, re-read through a "
                 "fresh storage object); every judged trial is one trace validated by TLC against SuggestTrace; distinct = "
                 "distinct (sampler, event sequence) traces with at least one sampled value")
